@@ -4,7 +4,9 @@
 (* _ResamplingHelper.add_sample / resample / _update_source_sample_period /   *)
 (* _update_buffer_len).                                                       *)
 (*                                                                            *)
-(* Timestamps are integer ticks (1 tick = 1 s in the harness); durations that *)
+(* Timestamps are integer ticks; the length of a tick is part of the          *)
+(* configuration (cfg.tick microseconds: 1 s, 0.5 s or 0.25 s, so resampling  *)
+(* periods such as 1.5 s or 0.75 s exist); durations that                     *)
 (* the code keeps as timedelta are integers in MICROSECONDS, because the      *)
 (* estimated input period (T - start) / received is rounded to a microsecond  *)
 (* by timedelta and that rounding decides buffer lengths.                     *)
@@ -19,8 +21,8 @@
 (* ImplRefinesDecl says they hand out the same sequence at every tick.        *)
 EXTENDS Integers, Sequences, FiniteSets, TLC, Json, CSV, IOUtils
 
-CONSTANTS ConfigSet,   \* records [P, age, L0, maxbuf]: period (ticks), max_data_age_in_periods,
-                       \* initial_buffer_len, max_buffer_len
+CONSTANTS ConfigSet,   \* records [P, age, L0, maxbuf, tick]: period (ticks), max_data_age_in_periods,
+                       \* initial_buffer_len, max_buffer_len, microseconds per tick
           DeltaSet,    \* allowed differences between consecutive input timestamps (0 = burst)
           Fut,         \* a sample may be stamped up to Fut ticks after the NEXT tick
           MaxRecv, MaxInvalid, MaxTicks,
@@ -29,7 +31,7 @@ CONSTANTS ConfigSet,   \* records [P, age, L0, maxbuf]: period (ticks), max_data
                        \* "trace": no generation (trace validation)
 
 None == -99
-US == 1000000
+US == 1000000          \* microseconds per second
 
 VARIABLES cfg,
           \* implementation-shaped
@@ -72,7 +74,7 @@ RECURSIVE BisectLoop(_, _, _, _)
 BisectLoop(sq, xUs, lo, hi) ==
     IF lo >= hi THEN lo
     ELSE LET mid == (lo + hi) \div 2 IN
-         IF xUs < sq[mid + 1].ts * US THEN BisectLoop(sq, xUs, lo, mid)
+         IF xUs < sq[mid + 1].ts * cfg.tick THEN BisectLoop(sq, xUs, lo, mid)
          ELSE BisectLoop(sq, xUs, mid + 1, hi)
 Bisect(sq, xUs) == BisectLoop(sq, xUs, 0, Len(sq))
 
@@ -80,23 +82,23 @@ Bisect(sq, xUs) == BisectLoop(sq, xUs, 0, Len(sq))
 Estimate(T) ==
     IF \/ periodUs # None
        \/ start = None
-       \/ received < cfg.P * cfg.age
+       \/ received * US < cfg.P * cfg.tick * cfg.age     \* < resampling_period.total_seconds() * max_age
        \/ Len(buf) < maxlen
        \/ T <= start
     THEN None
-    ELSE RoundDivEven((T - start) * US, received)
+    ELSE RoundDivEven((T - start) * cfg.tick, received)
 
 \* _update_buffer_len for input period pus
 NewLen(pus) ==
-    LET raw == IF pus > cfg.P * US
-               THEN CeilDiv(pus * cfg.age, US)            \* up-sampling
-               ELSE CeilDiv(cfg.P * US * cfg.age, pus)    \* down-sampling
+    LET raw == IF pus > cfg.P * cfg.tick
+               THEN CeilDiv(pus * cfg.age, US)                  \* up-sampling: ceil(period_s * age)
+               ELSE CeilDiv(cfg.P * cfg.tick * cfg.age, pus)    \* down-sampling: ceil(P_s / period_s * age)
     IN Min(Max(1, raw), cfg.maxbuf)
 
 \* the period the relevance window is measured in
-WindowPeriodUs(pus) == IF pus = None THEN cfg.P * US ELSE Max(cfg.P * US, pus)
+WindowPeriodUs(pus) == IF pus = None THEN cfg.P * cfg.tick ELSE Max(cfg.P * cfg.tick, pus)
 
-InWindow(x, loUs, T) == x.ts * US > loUs /\ x.ts <= T
+InWindow(x, loUs, T) == x.ts * cfg.tick > loUs /\ x.ts <= T
 
 ----------------------------------------------------------------------------
 Init ==
@@ -106,7 +108,7 @@ Init ==
     /\ hist = <<>> /\ lost = 0
     /\ all = <<>> /\ lastTs = 0 /\ nextT = cfg.P /\ nticks = 0
     /\ lastT = None /\ winLoUs = None /\ handed = <<>> /\ declared = <<>> /\ emitted = None
-    /\ h = <<[a |-> "config", P |-> cfg.P, age |-> cfg.age, L0 |-> cfg.L0, maxbuf |-> cfg.maxbuf]>>
+    /\ h = <<[a |-> "config", P |-> cfg.P, age |-> cfg.age, L0 |-> cfg.L0, maxbuf |-> cfg.maxbuf, tick |-> cfg.tick]>>
 
 \* a sample arrives from the source; kind "valid", "none" (value None) or "nan"
 Recv(ts, kind) ==
@@ -132,9 +134,9 @@ TickWith(T, est) ==
         nl == IF est # None THEN NewLen(est) ELSE maxlen
         b2 == LastN(buf, nl)                               \* deque(self._buffer, maxlen = nl)
         lost2 == Max(lost, Len(hist) - nl)
-        loUs == T * US - WindowPeriodUs(pus) * cfg.age     \* minimum_relevant_timestamp
+        loUs == T * cfg.tick - WindowPeriodUs(pus) * cfg.age     \* minimum_relevant_timestamp
         minIdx == Bisect(b2, loUs)
-        maxIdx == Bisect(b2, T * US)
+        maxIdx == Bisect(b2, T * cfg.tick)
         got == IF minIdx < maxIdx THEN SubSeq(b2, minIdx + 1, maxIdx) ELSE <<>>   \* islice
         decl == SelectSeq(hist, LAMBDA x : x.id \in {hist[i].id : i \in (lost2 + 1)..Len(hist)} /\ InWindow(x, loUs, T))
     IN
@@ -148,7 +150,7 @@ TickWith(T, est) ==
 Tick ==
     /\ TickWith(nextT, Estimate(nextT))
     /\ h' = Append(h, [a |-> "tick", T |-> nextT, est |-> (Estimate(nextT) # None),
-                       resized |-> (maxlen' # maxlen), upsampling |-> (periodUs' # None /\ periodUs' > cfg.P * US),
+                       resized |-> (maxlen' # maxlen), upsampling |-> (periodUs' # None /\ periodUs' > cfg.P * cfg.tick),
                        evicted |-> lost', nhanded |-> Len(handed'),
                        nfuture |-> Cardinality({i \in 1..Len(buf') : buf'[i].ts > nextT})])
 
@@ -184,7 +186,7 @@ KindOf(id) == all[id].kind
 FullWindow(loUs, T) == SelectSeq(hist, LAMBDA x : InWindow(x, loUs, T))
 
 NoFutureOf(got, T) == \A i \in 1..Len(got) : got[i].ts <= T
-NoStaleOf(got, loUs) == \A i \in 1..Len(got) : got[i].ts * US > loUs
+NoStaleOf(got, loUs) == \A i \in 1..Len(got) : got[i].ts * cfg.tick > loUs
 NoInvalidOf(got) == \A i \in 1..Len(got) : got[i].id \in 1..Len(all) /\ KindOf(got[i].id) = "valid" /\ all[got[i].id].ts = got[i].ts
 \* "in arrival order, limited to the most recent ones": a suffix of the full window ...
 WindowSuffixOf(got, loUs, T) == IsSuffix(got, FullWindow(loUs, T))
